@@ -515,6 +515,9 @@ def sweep_stepwise(hist, acc: core.Acc):
             except Exception:  # noqa: BLE001
                 pass
             n += sweep(conn, m, acc, {"history": hist[: i + 1], "sweep": "stepwise", "full_history": hist}, oid)
+        # ... and once more from a connection made only now (what a session set up at connect must not be stale)
+        conn2 = fs.connect(database="db1", schema="s1")
+        n += sweep(conn2, m, acc, {"history": hist, "sweep": "stepwise", "full_history": hist, "from": "new connection"}, hist[-1] if hist else "connect")
     finally:
         fs.duck_conn.close()
     acc.count("evaluations")
